@@ -208,7 +208,7 @@ package roundrobin
 //@   at_call SetCookie cookie_carries_the_minted_value: arg1 != nil && arg1.Name == s.cookieName && arg1.Value == callres(s.cookieValue.Get, 0, 0)
 
 //@ func (*RoundRobin).ServeHTTP
-//@   props C02 C11 C20
+//@   props C01 C02 C11 C20
 //@   requires req != nil
 //@   requires sticky_configured: r.stickySession != nil ==> r.stickySession.cookieValue != nil
 //@   modifies everything
@@ -218,7 +218,7 @@ package roundrobin
 //@   at_call r.next.ServeHTTP {C20} same_writer_copied_request: arg0 == w && arg1 != req
 //@   ensures error_only_without_server: calls(r.errHandler.ServeHTTP) == 1 ==> calls(NextServer) == 1 && callres(NextServer, 0, 1) != nil
 //@   ensures {C11} fresh_cookie_for_the_server_chosen: r.stickySession != nil && calls(NextServer) == 1 && callres(NextServer, 0, 1) == nil ==> calls(StickBackend) == 1 && callarg(StickBackend, 0, 1) == callres(NextServer, 0, 0) && callarg(StickBackend, 0, 2) == w
-//@   ensures {C11} pinned_requests_leave_the_rotation_alone: calls(GetBackend) == 1 && callres(GetBackend, 0, 1) ==> calls(NextServer) == 0 && calls(r.errHandler.ServeHTTP) == 0
+//@   ensures {C01,C11} pinned_requests_leave_the_rotation_alone: calls(GetBackend) == 1 && callres(GetBackend, 0, 1) ==> calls(NextServer) == 0 && calls(r.errHandler.ServeHTTP) == 0
 //@   ensures {C11} bad_cookies_are_balanced_normally: calls(GetBackend) == 1 && !callres(GetBackend, 0, 1) ==> calls(NextServer) == 1
 //@   at_call r.next.ServeHTTP routed_to_selection: (calls(NextServer) == 1 && callres(NextServer, 0, 1) == nil && arg1.URL == callres(NextServer, 0, 0)) || (calls(NextServer) == 0 && callres(GetBackend, 0, 1) && sameID(arg1.URL, callres(GetBackend, 0, 0)))
 //@   at_call r.next.ServeHTTP {C02,C09,C11,C20} fresh_url: fresh(arg1.URL)
